@@ -103,9 +103,11 @@ CHECKS.update({
     "C16": dict(
         engine="TypedTool", category="model_checking",
         text=("An independent JSON-Schema validator and default-application semantics written in TLA+ (TypedToolDefs) are evaluated by TLC over a complete bounded family of "
-              "129 526 (schema / Go type, value) cases; TLC checks the code-shaped procedure of toolForErr/applySchema against the property on every case. Every case (quick: all "
+              "130 411 (schema / Go type, value) cases; TLC checks the code-shaped procedure of toolForErr/applySchema against the property on every case. Every case (quick: all "
               "output, valid, boundary and reflected cases + 3000 samples; thorough: all) is executed as a real tools/call through mcp.AddTool, a real Server and a real Client, and "
-              "every outcome is judged by the same TLA+ predicates."),
+              "every outcome is judged by the same TLA+ predicates. The output side also states that valid output is returned (ValidOutputReturned), over pointer Out types "
+              "(*struct, *int, nil handler results) crossed with four SchemaCache arrangements (no cache, hit after an earlier registration, hit through the element-type sibling, "
+              "pointer registration filling the cache)."),
         design_ref="DESIGN.md section 6 C16",
         note="Trusted: TLC + CommunityModules Json; the TLA+ schema exporter; the harness' tagged-JSON codec and struct projections; the in-memory transport.",
         technique="TLA+ decision table with an independent validator; TLC-enumerated product; TLA+ monitor over real outcomes",
